@@ -108,6 +108,23 @@ CANARIES = [
 ]
 
 
+# Semantics-PRESERVING edits: the check must NOT answer exit 1 for any of them (exit 0 or exit 2 are both acceptable).
+EQUIVALENTS = [
+    ('eq-ceil-div-other-form', 'C16', 'src/freelist.rs', '        let num_pages = if (bytes % self.meta.pagesize) == 0 {\n            bytes / self.meta.pagesize\n        } else {\n            (bytes / self.meta.pagesize) + 1\n        };',
+     '        let num_pages = bytes / self.meta.pagesize + u64::from(bytes % self.meta.pagesize != 0);'),
+    ('eq-release-comparison-flipped', 'C10', 'src/freelist.rs', '            if other_tx_id < tx_id {', '            if tx_id > other_tx_id {'),
+    ('eq-advance-comparison-flipped', 'C08', 'src/cursor.rs', '                if elem.index + 1 >= page_node.len() {', '                if page_node.len() <= elem.index + 1 {'),
+    ('eq-txnew-local-for-id', 'C03', 'src/tx.rs', '                open_ro_txs.push(meta.tx_id);\n', '                let id = meta.tx_id;\n                open_ro_txs.push(id);\n'),
+    ('eq-meta-match-arms-reordered', 'C12', 'src/db.rs', '                    (Some(meta1), None) => Some(meta1),\n                    (None, Some(meta2)) => Some(meta2),', '                    (None, Some(meta2)) => Some(meta2),\n                    (Some(meta1), None) => Some(meta1),'),
+    ('eq-commit-extra-local', 'C02', 'src/tx.rs', '            self.meta.num_pages = freelist.meta.num_pages;', '            let hwm = freelist.meta.num_pages;\n            self.meta.num_pages = hwm;'),
+    ('eq-drop-early-return-form', 'C03', 'src/tx.rs', '                _ => return, // this shouldn\'t happen, but isn\'t the end of the world if it does', '                Err(_) => return,'),
+    ('eq-getter-comment-and-else', 'C01', 'src/bucket.rs', '                        _ => return Err(Error::IncompatibleValue),\n                    },', '                        Leaf::Kv(..) => return Err(Error::IncompatibleValue),\n                    },'),
+    ('eq-is-freed-match', 'C05', 'src/freelist.rs', '            .map_or(false, |pages| pages.contains(&page_id))', '            .map_or(false, |freed| freed.contains(&page_id))'),
+    ('eq-seek-first-while-form', 'C08', 'src/cursor.rs', '            if page_node.leaf() {\n                break;\n            }\n            if page_node.len() == 0 {\n                break;\n            }', '            if page_node.leaf() || page_node.len() == 0 {\n                break;\n            }'),
+]
+CANARY_EXPECT_NOT_KILLED = set(c[0] for c in EQUIVALENTS)
+CANARIES = CANARIES + EQUIVALENTS
+
 # canaries that need the Kani groups / the bounded stand-ins of the quick tier (everything else runs with --no-kani for speed)
 KANI_CANARIES = set(c[0] for c in CANARIES if c[0].startswith('tree-'))
 
